@@ -93,6 +93,10 @@ class _FetchNoEnd(Exception):
     """The fetch loop keeps asking (the fake controller stops answering after MAX_RQ requests)."""
 
 
+class _NoSuchFragment(Exception):
+    """The library asked for a fragment beyond the controller's set: no answer, the send fails."""
+
+
 class _Controller:
     """A faithful controller for Schedule.get_schedule(): holds one catalogue version per zone, answers RQ|0006 with
     its change counter and RQ|0404 with the catalogue's own RP packet of the fragment asked for.  Every command it
@@ -141,8 +145,8 @@ class _Controller:
             raise _FetchNoEnd(f"{self.n_rq} fragment requests in one fetch")
         idx, k = msg.payload["zone_idx"], msg.payload["frag_number"]
         frames = self.cat[self.holds[idx]]["frames"]
-        if not 1 <= k <= len(frames):
-            raise HarnessError(f"fragment {k} of a {len(frames)}-fragment schedule asked for")
+        if not 1 <= k <= len(frames):  # the model's "BadRequest" (never within the statement's scope on the unchanged code)
+            raise _NoSuchFragment(f"fragment {k} of a {len(frames)}-fragment schedule asked for")
         self.asked.append(k)
         return mk_pkt(frames[k - 1])
 
@@ -215,6 +219,8 @@ class Runner:
             raise
         except _FetchNoEnd:
             exc = "no-end"
+        except _NoSuchFragment:
+            exc = "asked-for-a-fragment-the-schedule-does-not-have"
         except Exception as err:  # noqa: BLE001
             exc = exc_name(err)
         if ctl.zone_lock_idx is not None:  # (C18c's business; the next fetch of the history must not meet a stale lock)
